@@ -1,5 +1,6 @@
 import H264.Sei
 import H264.NalSrcProofs
+import H264.SeiMono
 /-! # C10 — SEI reader yields exactly the encoded (type, payload) messages, then stays ended
 
 Model: `Sei.next` mirrors `SeiReader::next` over the bytes the RBSP byte reader delivers (`NalSrc.drain`: bytes
@@ -54,6 +55,10 @@ theorem no_wrapped_u32 (name fin) (bs : List UInt8) :
     match readU32 name fin bs 0 with
     | .ok (v, _) => v < 4294967296
     | .error _ => True := readU32_overflow name fin bs 0 (by omega)
+
+/-- explicitly: a type or size whose 0xFF-extension coding sums to 2³² or more is rejected, whatever follows -/
+theorem type_or_size_too_large (name : String) (fin : IoKind) (n : Nat) (hn : n ≥ 4294967296) (rest : List UInt8) :
+    readU32 name fin (encU32 n ++ rest) 0 = .error (.io name .invalidData) := readU32_too_large name fin n hn rest
 
 /-- a payload running past the data is an error (of the kind the source reports), and the reader is then ended -/
 theorem truncated_payload (ty len : Nat) (hty : ty < 4294967296) (hlen : len < 4294967296)
